@@ -83,7 +83,7 @@ type runSpec struct {
 func TestC19(t *testing.T) {
 	r := ev.Start(t, "C19", "exploration")
 	defer r.Finish()
-	r.Rule("one-shot mtail.Server runs with a program directory of 1-3 generated programs (some raising runtime errors) and 1-3 log files with random contents (incl. empty files and a final unterminated line; every 8th run one file larger than the read buffer with an LF or CRLF line end placed on the buffer boundary; the last run(s) stalled at the hook so that the whole run lasts 6.5 s / 35 s), under GOMAXPROCS in {1,2,4,16} and PRNG jitter at the VM line hook. Checked: Run returns (60s watchdog, goroutine dump as witness); per program and file the processed lines are exactly the file's lines in file order, each once; the final exported store equals the reference interpreter run on the observed per-program interleaving. Non-trivial: >=2 files or >=2 programs and >=1 line changing the store; distinct by run index.")
+	r.Rule("one-shot mtail.Server runs with a program directory of 1-3 generated programs (some raising runtime errors) and 1-3 log files with random contents (incl. empty files and a final unterminated line; every 8th run one file larger than the read buffer with an LF or CRLF line end placed on the buffer boundary; the last run(s) stalled at the hook so that the whole run lasts 6.5 s / 35 s), under GOMAXPROCS in {1,2,4,16} and PRNG jitter at the VM line hook. Checked: Run returns (a run is declared non-terminating only when the system is quiescent — no mtail goroutine running, no further line processed over four samples — and Run still has not returned); per program and file the processed lines are exactly the file's lines in file order, each once; the final exported store equals the reference interpreter run on the observed per-program interleaving. Non-trivial: >=2 files or >=2 programs and >=1 line changing the store; distinct by run index.")
 	r.Assume("the reference is evaluated on the interleaving each program actually observed, so no search over interleavings is needed", "cases in which the reference needs unspecified behaviour (NaN ordering, else/otherwise ambiguity) are abandoned and counted")
 	lh := func(id uint64, name string, l *logline.LogLine, phase int) {
 		if phase != 0 {
@@ -253,16 +253,33 @@ func TestC19(t *testing.T) {
 			r.Violation("server-start-failed", map[string]any{"spec": spec, "what": err.Error()})
 			continue
 		}
-		done := make(chan error, 1)
-		go func() { done <- m.Run() }()
+		done := make(chan struct{})
+		go func() { _ = m.Run(); close(done) }()
 		r.Eval(1)
-		select {
-		case <-done:
-		case <-time.After(60*time.Second + 3*slowRuns[run]):
-			d := dump()
+		// "Run returns" is decided on the state of the system, not on a clock:
+		// long after the expected duration, a run counts as not terminating only
+		// when nothing in mtail is running any more and no further line is being
+		// processed (see ev.AwaitOrQuiescent); slow progress just takes longer
+		verdict, gdump := ev.AwaitOrQuiescent(done, 30*time.Second+2*slowRuns[run], 20*time.Minute, func() int64 {
+			logMu.Lock()
+			defer logMu.Unlock()
+			n := int64(0)
+			for _, v := range logBy {
+				n += int64(len(v))
+			}
+			return n
+		})
+		if verdict != "" {
 			cancel()
-			r.Violation("run-did-not-terminate", map[string]any{"spec": spec, "what": "Server.Run did not return within 60s in one-shot mode", "listener": []string{"none", "unix socket", "tcp"}[run%3], "goroutines": d})
 			stall.Store(0)
+			if verdict == "inconclusive" {
+				r.Inconclusive("a one-shot run was still making progress after 20 minutes")
+				return
+			}
+			if len(gdump) > 60000 {
+				gdump = gdump[:60000]
+			}
+			r.Violation("run-did-not-terminate", map[string]any{"spec": spec, "what": "Server.Run did not return in one-shot mode: every line was handed over, nothing in mtail is running any more, and Run is still waiting", "listener": []string{"none", "unix socket", "tcp"}[run%3], "goroutines": gdump})
 			return // the server of this run is still alive: no further runs in this process
 		}
 		cancel()
